@@ -764,6 +764,17 @@ func helperAlts(call *ssa.Call, idx int, want bool, depth int) ([][]Fact, bool) 
 				}
 			}
 		}
+		// a field of a struct parameter (t.service in `func (t target) concerns(hdr)`):
+		// what the caller gave that field when it built the struct it passes
+		if p, fi, ok := FieldOfParam(v); ok && p.Parent() == h {
+			for i, hp := range h.Params {
+				if hp == p && i < len(args) {
+					if d := LocalStructField(args[i], fi); d != nil {
+						return d
+					}
+				}
+			}
+		}
 		return v
 	}
 	var out [][]Fact
@@ -1856,4 +1867,118 @@ func ResolveLoad(v ssa.Value) ssa.Value {
 		v = Canon(sts[0].Val)
 	}
 	return v
+}
+
+// FieldOfParam: v reads field idx of a struct-typed parameter p (directly, or
+// through the local copy go/ssa makes of a parameter whose address is taken).
+func FieldOfParam(v ssa.Value) (*ssa.Parameter, int, bool) {
+	switch x := StripConv(v).(type) {
+	case *ssa.Field:
+		if p, ok := x.X.(*ssa.Parameter); ok {
+			return p, x.Field, true
+		}
+	case *ssa.UnOp:
+		fa, ok := x.X.(*ssa.FieldAddr)
+		if !ok || x.Op != token.MUL {
+			return nil, 0, false
+		}
+		al, ok := fa.X.(*ssa.Alloc)
+		if !ok {
+			return nil, 0, false
+		}
+		var p *ssa.Parameter
+		n := 0
+		for _, r := range Referrers(al) {
+			switch y := r.(type) {
+			case *ssa.Store:
+				if y.Addr == ssa.Value(al) {
+					n++
+					p, _ = y.Val.(*ssa.Parameter)
+				}
+			case *ssa.FieldAddr:
+				for _, u := range Referrers(y) {
+					if st, ok := u.(*ssa.Store); ok && st.Addr == ssa.Value(y) {
+						return nil, 0, false
+					}
+				}
+			}
+		}
+		if n == 1 && p != nil {
+			return p, fa.Field, true
+		}
+	}
+	return nil, 0, false
+}
+
+// LocalStructField: arg is a struct value built on the spot (the load of a
+// local filled field by field by one composite literal, possibly captured by
+// the closure that uses it); returns what field idx was given, nil if unknown.
+func LocalStructField(arg ssa.Value, idx int) ssa.Value {
+	ld, ok := Strip(arg).(*ssa.UnOp)
+	if !ok || ld.Op != token.MUL {
+		return nil
+	}
+	var al *ssa.Alloc
+	switch x := ld.X.(type) {
+	case *ssa.Alloc:
+		al = x
+	case *ssa.FreeVar:
+		for depth := 0; depth < 3 && al == nil; depth++ {
+			b := FreeVarBinding(x)
+			switch y := b.(type) {
+			case *ssa.Alloc:
+				al = y
+			case *ssa.FreeVar:
+				x = y
+				continue
+			}
+			break
+		}
+	}
+	if al == nil {
+		return nil
+	}
+	if _, isStruct := al.Type().Underlying().(*types.Pointer).Elem().Underlying().(*types.Struct); !isStruct {
+		return nil
+	}
+	var val ssa.Value
+	n := 0
+	var visit func(cell ssa.Value, depth int) bool
+	visit = func(cell ssa.Value, depth int) bool {
+		for _, r := range Referrers(cell) {
+			switch y := r.(type) {
+			case *ssa.Store:
+				if y.Addr == cell {
+					return false // the whole struct is overwritten
+				}
+			case *ssa.FieldAddr:
+				if y.Field != idx {
+					continue
+				}
+				for _, u := range Referrers(y) {
+					if st, ok := u.(*ssa.Store); ok && st.Addr == ssa.Value(y) {
+						n++
+						val = st.Val
+					}
+				}
+			case *ssa.MakeClosure:
+				if depth > 2 {
+					return false
+				}
+				fn, _ := y.Fn.(*ssa.Function)
+				for i, b := range y.Bindings {
+					if b == cell && fn != nil && i < len(fn.FreeVars) {
+						if !visit(fn.FreeVars[i], depth+1) {
+							return false
+						}
+					}
+				}
+			}
+		}
+		return true
+	}
+	if !visit(al, 0) || n != 1 {
+		return nil
+	}
+	return val
 }
